@@ -113,26 +113,26 @@ fn main() {
         plan.push(("large", 7, 63));
     }
     if want(&["C05"]) {
-        plan.push(("pf", 1000, 20_000));
+        plan.push(("pf", 1000, 100_000));
     }
     if want(&["C04", "C07", "C19", "C01"]) {
-        plan.push(("lazy", 400, 8_000));
+        plan.push(("lazy", 400, 40_000));
     }
     if want(&["C06"]) {
-        plan.push(("reject", 1500, 30_000));
+        plan.push(("reject", 1500, 150_000));
     }
     if want(&["C08"]) {
-        plan.push(("iso", 1500, 30_000));
+        plan.push(("iso", 1500, 150_000));
     }
     if want(&["C10"]) {
-        plan.push(("init", 700, 7_000));
+        plan.push(("init", 700, 30_000));
     }
     if want(&["C11"]) {
         plan.push(("lookup", 120, 2_000));
         plan.push(("lookup_long", 6, 60));
     }
     if want(&["C20"]) {
-        plan.push(("peer", 1000, 20_000));
+        plan.push(("peer", 1000, 100_000));
     }
     for (mode, q, t) in plan {
         let n = args.n(q, t);
